@@ -19,11 +19,16 @@ EstSplit(off) == LET A == DocTransformL(Dense, GE, 2)  B == DocTransformL(Dense,
                  Shift([Dense EXCEPT !.poses = [k \in 1..9 |-> IF k <= 5 THEN A.poses[k] ELSE B.poses[k]]], -off)
 Modes == <<"none", "sim", "scale", "origin", "scaleorigin">>
 Init == \E tool \in {"ape", "rpe"}, down \in {0, 5, 3}, lo \in {-1000, 2}, hi \in {1000, 6}, off \in {0, 3}, mi \in 1..5, nal \in {0, 3},
-           split \in BOOLEAN, head \in BOOLEAN, pi \in 1..3, rel \in {"trans", "deg", "full", "rotpart", "pdist"}, delta \in {1, 2}, allp \in BOOLEAN, fmt \in {"tum", "euroc"} :
+           split \in BOOLEAN, head \in BOOLEAN, pi \in 1..3, rel \in {"trans", "deg", "full", "rotpart", "pdist"}, delta \in {1, 2, 3, 5, 9}, allp \in BOOLEAN, fmt \in {"tum", "euroc"},
+           dunit \in {"f", "m"}, fromref \in BOOLEAN, cu \in BOOLEAN :
           LET x == [tool |-> tool, ref |-> IF head THEN RefHead ELSE RefT, est |-> IF split THEN EstSplit(off) ELSE EstT(off), fmt |-> fmt,
                     q |-> [down |-> down, mf |-> 0, lo |-> lo, hi |-> hi, md |-> 0, off |-> off, mode |-> Modes[mi], nalign |-> nal,
-                           plane |-> <<"none", "xy", "yz">>[pi], rel |-> rel, delta |-> delta, allpairs |-> allp]] IN
-          /\ (tool = "ape" => delta = 1 /\ ~allp)
+                           plane |-> <<"none", "xy", "yz">>[pi], rel |-> rel, delta |-> delta, allpairs |-> allp,
+                           dunit |-> dunit, fromref |-> fromref, cu |-> cu]] IN
+          /\ (tool = "ape" => delta = 1 /\ ~allp /\ dunit = "f" /\ ~fromref)
+          /\ (dunit = "f" => delta \in {1, 2} /\ ~fromref)
+          /\ (dunit = "m" => delta \in {3, 5, 9} /\ ~allp /\ pi = 1 /\ rel = "trans" /\ down = 0 /\ ~split)
+          /\ (cu => rel \in {"trans", "deg"} /\ dunit = "f" /\ ~split /\ ~head)          \* --change_unit mm / rad
           /\ (nal # 0 => Modes[mi] \in {"sim", "scale"})
           /\ (split <=> nal # 0) /\ (split => down = 0 /\ lo = -1000 /\ ~head)
           /\ (head => lo = -1000 /\ hi = 1000)
@@ -31,8 +36,9 @@ Init == \E tool \in {"ape", "rpe"}, down \in {0, 5, 3}, lo \in {-1000, 2}, hi \i
           /\ (pi # 1 => rel = (IF tool = "ape" THEN "trans" ELSE "pdist"))
           /\ (rel = "pdist" => tool = "rpe" /\ delta = 1 /\ ~allp /\ down = 0)                                                                       \* projected headings of non-planar poses are free
           /\ (down + lo + hi + 3 * off + 5 * mi + 7 * nal + 11 * pi + 13 * delta + (IF allp THEN 17 ELSE 0) + (IF tool = "ape" THEN 19 ELSE 0)
-              + (IF fmt = "tum" THEN 23 ELSE 0) + (IF rel = "trans" THEN 29 ELSE IF rel = "deg" THEN 31 ELSE 37) + (IF head THEN 41 ELSE 0))
-             % (IF nal # 0 /\ SampleK > 5 THEN 5 ELSE SampleK) = 0
+              + (IF fmt = "tum" THEN 23 ELSE 0) + (IF rel = "trans" THEN 29 ELSE IF rel = "deg" THEN 31 ELSE 37) + (IF head THEN 41 ELSE 0)
+                 + (IF dunit = "m" THEN 43 ELSE 0) + (IF fromref THEN 47 ELSE 0) + (IF cu THEN 53 ELSE 0))
+             % (IF (nal # 0 \/ (cu /\ mi = 1) \/ dunit = "m") /\ SampleK > 5 THEN 5 ELSE SampleK) = 0
           /\ c = x
 Next == UNCHANGED c
 Spec == Init /\ [][Next]_c
@@ -41,7 +47,10 @@ Judgeable(x) == /\ DownExact(x.ref, x.q.down) /\ DownExact(x.est, x.q.down)
                 /\ N(SyncedEst(x)) = N(SyncedRef(x))
                 /\ (x.q.nalign # 0 => AlignNDefined(SyncedEst(x), SyncedRef(x), x.q.mode, x.q.nalign))
                 /\ (x.q.nalign = 0 /\ x.q.mode \in {"sim", "scale", "scaleorigin"} => AlignDefined(SyncedEst(x), SyncedRef(x), IF x.q.mode = "sim" THEN "sim" ELSE "scale"))
-                /\ (x.tool = "rpe" => N(SyncedEst(x)) > x.q.delta)
+                /\ (x.tool = "rpe" /\ x.q.dunit = "f" => N(SyncedEst(x)) > x.q.delta)
+                /\ (x.q.dunit = "m" => IntegerSteps(FinalRef(x)) /\ IntegerSteps(FinalEst(x))
+                                        /\ LET drv == DrvOf(IF x.q.fromref THEN FinalRef(x) ELSE FinalEst(x)) IN
+                                           FirstReach(drv, x.q.delta) >= 0 /\ Len(ChainFrom(drv, x.q.delta, FirstReach(drv, x.q.delta))) > 0)
                 /\ (x.q.rel = "pdist" => IntegerSteps(FinalRef(x)) /\ IntegerSteps(FinalEst(x)))
 EmitCases == (Emit /\ Judgeable(c)) => PrintT(ToJson(c))
 ==============================================================================
